@@ -45,6 +45,7 @@ type Program struct {
 	dropped    map[string]int
 	inlined    map[string]bool
 	usedContracts map[string]bool
+	noContract    map[string]bool
 	overlayNote string
 }
 
@@ -54,7 +55,7 @@ func loadProgram(repo string) (*Program, error) {
 	p := &Program{repo: repo, byPath: map[string]*packages.Package{}, decls: map[*types.Func]*ast.FuncDecl{}, declPkg: map[*types.Func]*packages.Package{},
 		globals: map[*types.Var]*globalInfo{}, mutatedGlobals: map[types.Object]bool{}, boxCache: map[ast.Node]map[types.Object]bool{},
 		tmpInit: map[*Exec]map[string]Val{}, tmpGlobals: map[*Exec]map[string]Val{}, litVals: map[string]*ast.FuncLit{}, interior: map[string]*lval{},
-		dropped: map[string]int{}, inlined: map[string]bool{}, usedContracts: map[string]bool{}}
+		dropped: map[string]int{}, inlined: map[string]bool{}, usedContracts: map[string]bool{}, noContract: map[string]bool{}}
 	ov := map[string][]byte{}
 	dropped := 0
 	for _, f := range overlayFiles {
